@@ -74,7 +74,24 @@ func (c *Ctx) mck(which map[string]bool) {
 					}
 				}
 				if msgEq == nil && topEq == nil {
-					continue // quit / unwanted paths
+					// quit / unwanted paths never reach want[i]; a path that did
+					// take an expectation must compare it
+					took := false
+					for _, b := range p.Blocks {
+						for _, ins := range b.Instrs {
+							if ia, ok := ins.(*ssa.IndexAddr); ok {
+								if u, ok := ia.X.(*ssa.UnOp); ok {
+									if fv, ok := u.X.(*ssa.FreeVar); ok && fv.Name() == "want" {
+										took = true
+									}
+								}
+							}
+						}
+					}
+					if took {
+						a.fail(p, len(p.Events)-1, "an expectation is taken but the invocation is not compared with it on this path")
+					}
+					continue
 				}
 				// the comparison report: an Errorf after the comparison
 				ic := p.Index(0, func(e *pathx.Event) bool { return isStd(e, "bytes.Equal") })
@@ -122,6 +139,34 @@ func (c *Ctx) mck(which map[string]bool) {
 						} else if p.End == pathx.KLoopBack {
 							a.fail(p, i, "a filter that is %s the expectation is handled wrongly (removed: %v, noted as wrong: %v)", map[bool]string{true: "in", false: "not in"}[rel == pathx.RTrue], del, app)
 						}
+					}
+				}
+				if p.End == pathx.KReturn {
+					took := false
+					for _, b := range p.Blocks {
+						for _, ins := range b.Instrs {
+							if ia, ok := ins.(*ssa.IndexAddr); ok {
+								if u, ok := ia.X.(*ssa.UnOp); ok {
+									if fv, ok := u.X.(*ssa.FreeVar); ok && fv.Name() == "want" {
+										took = true
+									}
+								}
+							}
+						}
+					}
+					tests := 0
+					for _, cm := range assumed(p, 0, -1) {
+						if arg, isLen := builtinCall(cm.X, "len"); isLen && isK(cm.Y, 0) {
+							ts := arg.Type().String()
+							if _, isP := arg.(*ssa.Parameter); !isP && (ts == "[]string" || strings.HasPrefix(ts, "map[string]")) {
+								tests++
+							}
+						}
+					}
+					if took && tests < 2 {
+						a.fail(p, len(p.Events)-1, "an expectation is taken but the call returns without comparing the filter set (tests of wrong/todo seen: %d)", tests)
+					} else if took {
+						a.pass()
 					}
 				}
 				// reports
